@@ -203,7 +203,16 @@ func subThresholds(out string, seed uint64, tier string, arg string) {
 				if n < k {
 					continue
 				}
-				for _, w := range []string{wide, "€", "é"} {
+				ws := []string{wide, "€", "é"}
+				if n > 1000 {
+					// long values are costly for the model's list-based decoder: the quick tier keeps the widest characters at the
+					// one prefix length that matters for a 64-character limit
+					if tier != "thorough" && (k != 64 || n == 33000) {
+						continue
+					}
+					ws = []string{wide}
+				}
+				for _, w := range ws {
 					doGN([]string{strings.Repeat(w, k) + strings.Repeat("n", n-k)}, 0x0C)
 					doGN([]string{strings.Repeat("n", n-k) + strings.Repeat(w, k)}, 0x0C)
 				}
